@@ -5,7 +5,7 @@ fixes/C04-fixed-array-index.patch, emitBoundsCheckedIndex; csem = ssem for every
 Correspondence: generated ArrLang programs (literal, const, let-bound, reassigned before/after the use,
 branch-dependent and loop-carried indices, N in 1..6, reads and writes, negative indices, i64 indices) are
 type-checked one by one (in-process batch hook) -> diagnostics T0009/T0028 in emission order vs `walk`; accepted
-programs are compiled natively (several scenarios per executable), run with stdout on a pty, and the printed
+programs are compiled natively with the real CLI (several scenarios per executable), run with stdout on a pty, and the printed
 lines / panic are compared with `csem` (does the port predict the code?) and `ssem` (source semantics = the
 property), both inside Coq (vm_compute) and against an independent Python interpreter of the source semantics.
 Search: a disagreeing scenario is re-run alone, shrunk (statement deletion, literal simplification) while the
@@ -597,28 +597,36 @@ def parse_out(text):
             cur.append(ln)
     return segs, cur
 
+KNOWN_BACKEND_CRASH = "rega.c:597"      # open finding of C01 (key crash:qbe-rega-597): QBE register allocation assertion
+
 def execute(files, work, tag):
-    """compile each file natively (in-process hook), run it; fills sc['ran'], sc['out'], sc['panic'], sc['c_ok']"""
-    reqs = []
+    """compile each file natively with the real CLI (one `ferret -o` process per file: the vendored QBE keeps global
+    state, so code generation never goes through the in-process batch hook), run it on a pty;
+    fills sc['ran'], sc['out'], sc['panic'], sc['c_ok'], and sc['c_crash'] when the compiler process died"""
+    jobs = []
     for i, g in enumerate(files):
         d = work.sub("%s%d" % (tag, i))
         f = os.path.join(d, "main.fer")
         open(f, "w").write(r_file(g))
-        reqs.append(dict(id=i, file=f, mode="native", out=os.path.join(d, "prog")))
-    res = common.batch_compile(reqs) if reqs else {}
+        jobs.append((d, f, os.path.join(d, "prog")))
     def runone(i):
-        r = res[i]; g = files[i]
-        exe = reqs[i]["out"]
-        if not r["ok"] or not os.path.exists(exe):
+        d, f, exe = jobs[i]; g = files[i]
+        crc, co, ce = common.ferret(["-o", exe, f], cwd=d, timeout=120)
+        if crc != 0 or not os.path.exists(exe):
+            text = (co + ce)
+            crashed = crc not in (0, 1) or "Assertion" in text or "panic:" in text or "SIGABRT" in text
             for sc in g:
-                sc['c_ok'] = False; sc['ran'] = False; sc['c_text'] = (r['panic'] or r['out'])[:600]; sc['c_codes'] = diag_codes(r['out'])
+                sc['c_ok'] = False; sc['ran'] = False; sc['c_rc'] = crc
+                sc['c_text'] = text[:800]
+                sc['c_codes'] = diag_codes(text); sc['c_crash'] = crashed
+                sc['c_known_crash'] = crashed and KNOWN_BACKEND_CRASH in text     # site searched in the whole output
             return
         rc, out, err = run_pty(exe)
         segs, tail = parse_out(out)
         panicked = rc != 0
         for j, sc in enumerate(g):
-            sc['c_ok'] = True
-            sc['file'] = reqs[i]["file"]
+            sc['c_ok'] = True; sc['c_crash'] = False
+            sc['file'] = f
             if j < len(segs):
                 sc['ran'] = True; sc['out'] = segs[j]; sc['panic'] = False
             elif j == len(segs):
@@ -753,9 +761,11 @@ def wide_probe(run, work):
     f = os.path.join(d, "main.fer")
     open(f, "w").write(WIDE_PROBE)
     exe = os.path.join(d, "prog")
-    res = common.batch_compile([dict(id=0, file=f, mode="native", out=exe)])[0]
+    crc, co, ce = common.ferret(["-o", exe, f], cwd=d, timeout=120)
     run.count("wide_index_probe")
-    if not res["ok"] or not os.path.exists(exe):
+    if crc != 0 or not os.path.exists(exe):
+        if KNOWN_BACKEND_CRASH in (co + ce):
+            run.count("backend_crash_known_C01")
         return      # rejected at compile time: allowed by the property
     rc, out, err = run_pty(exe)
     got = out.split()
@@ -919,11 +929,17 @@ def main(run):
             if nspec <= 4:
                 report_spec(i, sc)
             continue
+        if pybad & 8 and sc.get('c_known_crash'):
+            # QBE register-allocation assertion: the open finding of C01 (crash:qbe-rega-597). No executable exists,
+            # so no array access happens: not a C04 verdict. Counted and skipped; any other crash text is reported.
+            run.count("backend_crash_known_C01")
+            continue
         if pybad & 8:
             key = "compile:" + ",".join(sc.get('c_codes') or ["native-failed"])
             if key not in reported:
                 reported.add(key)
-                run.violation(key, "program accepted by the type checker but code generation failed: %s" % (sc.get('c_text', '')[:200]),
+                run.violation(key, "program accepted by the type checker but code generation failed%s: %s"
+                              % (" (compiler process died rc=%s)" % sc.get('c_rc') if sc.get('c_crash') else "", sc.get('c_text', '')[:300]),
                               {"program": r_file([sc]), "output": sc.get('c_text'), "correspondence": "walk accepted / native build"},
                               no_input=True)
             continue
